@@ -1,4 +1,5 @@
 import Driver.CAStoreRepl
+import Driver.CAStoreConc
 import KrakenModel.Model.LRUCache
 /- Driver for C13.  Three machines:
 
@@ -29,6 +30,7 @@ structure Ghost where
 structure St where
   m : MemCache.State
   g : Ghost := {}
+  lastTotal : Nat := 0          -- TotalBytes as last reported by the implementation (0 for a new cache)
 
 def init (toks : List String) : Option St := do
   let max ← (kv? toks "max").bind nat?
@@ -47,8 +49,11 @@ def step (s : St) (kind : String) (args impl : List String) : Option (St × Step
     let size ← nat? size
     if size ≥ two64 then none else
     let (m, ok) := tryReserve s.m size
-    let pf := if s.g.wf ∧ impl = ["1"] ∧ sumStored s.g + s.g.outstanding.sum + size > s.m.maxSize then
-        [s!"side=impl key=over-budget reserve {size} admitted with {sumStored s.g} stored + {s.g.outstanding.sum} reserved of {s.m.maxSize}"] else []
+    let pf := (if s.g.wf ∧ impl = ["1"] ∧ sumStored s.g + s.g.outstanding.sum + size > s.m.maxSize then
+        [s!"side=impl key=over-budget reserve {size} admitted with {sumStored s.g} stored + {s.g.outstanding.sum} reserved of {s.m.maxSize}"] else []) ++
+      -- no caller discipline needed: an admitted reservation fits next to what the cache itself reports as accounted
+      (if impl = ["1"] ∧ s.lastTotal + size > s.m.maxSize then
+        [s!"side=impl key=admitted-over-max reserve {size} admitted although TotalBytes was {s.lastTotal} of {s.m.maxSize}"] else [])
     let g := if impl = ["1"] then { s.g with outstanding := size :: s.g.outstanding } else s.g
     let wrap := s.m.total + size ≥ two64
     pure ({ m, g }, { obs := [boolTok ok], branch := s!"reserve.{if ok then "ok" else "refused"}{if wrap then ".wrap" else ""}", propfails := pf })
@@ -95,7 +100,14 @@ def step (s : St) (kind : String) (args impl : List String) : Option (St × Step
           [s!"side=impl key=accounting-imbalance TotalBytes={t} NumEntries={n} but {s.g.stored.length} entries of {sumStored s.g} bytes are stored and {s.g.outstanding.sum} bytes reserved"]
         else []
       | _ => []
-    some (s, { obs := [toString s.m.total, toString (numEntries s.m)], branch := if s.g.wf then "total.wf" else "total.undisciplined", propfails := pf })
+    -- unconditionally (theorem total_within_budget needs no discipline)
+    let pf2 := match impl with
+      | [t, _] => match t.toNat? with
+        | some t => if t > s.m.maxSize then [s!"side=impl key=total-over-max TotalBytes={t} exceeds MaxSize={s.m.maxSize}"] else []
+        | none => []
+      | _ => []
+    let lt := match impl with | [t, _] => t.toNat?.getD s.lastTotal | _ => s.lastTotal
+    some ({ s with lastTotal := lt }, { obs := [toString s.m.total, toString (numEntries s.m)], branch := if s.g.wf then "total.wf" else "total.undisciplined", propfails := pf ++ pf2 })
   | _ => none
 
 def machine : Machine := { σ := St, name := "memcache", init := init, step := step }
@@ -122,7 +134,9 @@ def step (s : St) (kind : String) (args impl : List String) : Option (St × Step
   let pf : List String := match impl.findSome? (pfx "acct=") with
     | some a => match a.splitOn "/" with
       | [t, n, sum, cnt] =>
-        if t ≠ sum ∨ n ≠ cnt then
+        if (t.toNat?.getD 0) > s.core.m.cfg.maxSize then
+          [s!"side=impl key=total-over-max after {sp args}: TotalBytes={t} exceeds MaxSize={s.core.m.cfg.maxSize}"]
+        else if t ≠ sum ∨ n ≠ cnt then
           [s!"side=impl key=mem-accounting-leak after {sp args}: TotalBytes={t} NumEntries={n} but the memory cache holds {cnt} entries of {sum} bytes and no reservation is outstanding"]
         else []
       | _ => []
@@ -210,4 +224,28 @@ def machine : Machine := { σ := St, name := "lru", init := init, step := step }
 
 end C13LRU
 
-def main (args : List String) : IO UInt32 := runMachines [C13Mem.machine, C13Store.machine, C13LRU.machine] args
+/-! ### concurrent callers (no model state: the expected outcome is what the theorems say for every
+interleaving of whole method calls) -/
+namespace C13Conc
+
+def step (_ : Unit) (kind : String) (args impl : List String) : Option (Unit × StepOut) :=
+  if kind ≠ "one" then none else
+  match args with
+  | "concmem" :: rest =>
+    let over := ((kv? impl "over").bind nat?).getD 0
+    let fin := (kv? impl "final").getD ""
+    let pf := (if over > 0 then [s!"side=impl key=admitted-over-max-concurrent {sp rest}: {over} times the reservations held by the callers (or TotalBytes) exceeded MaxSize"] else []) ++
+      (if fin ≠ "0/0" then [s!"side=impl key=accounting-imbalance-concurrent {sp rest}: after every reservation was released and every entry removed TotalBytes/NumEntries = {fin}"] else [])
+    some ((), { obs := ["over=0", "final=0/0"], branch := "concmem", propfails := pf })
+  | "conclru" :: rest =>
+    let over := ((kv? impl "oversize").bind nat?).getD 0
+    let pf := if over > 0 ∨ (kv? impl "final") = some "0" then [s!"side=impl key=over-size-concurrent {sp rest}: Size() exceeded the limit {over} times"] else []
+    some ((), { obs := ["oversize=0", "final=1"], branch := "conclru", propfails := pf })
+  | _ => none
+
+def machine : Machine := { σ := Unit, name := "cacheconc", init := fun _ => some (), step := step }
+
+end C13Conc
+
+def main (args : List String) : IO UInt32 :=
+  runMachines [C13Mem.machine, C13Store.machine, C13LRU.machine, C13Conc.machine, C01Conc.machine] args
